@@ -241,6 +241,7 @@ impl ProtocolState {
             &&& (r is Err <==> disconnect_completion_err(old(self).state, op))
         },
         old(self).cur_ok() && old(self).current_operation != Some(id) ==> final(self).cur_ok(),
+        !old(self).ss_active() ==> final(self).slow_start_ack_count == old(self).slow_start_ack_count,
 //@@at after "if operation_option.is_none() {"
         proof { assert(self.operations@ =~= old(self).operations@); }
 //@@at after "let operation = operation_option.unwrap();"
@@ -263,6 +264,7 @@ impl ProtocolState {
             &&& (r is Err <==> disconnect_completion_err(old(self).state, op))
         },
         old(self).cur_ok() && old(self).current_operation != Some(id) ==> final(self).cur_ok(),
+        !old(self).ss_active() ==> final(self).slow_start_ack_count == old(self).slow_start_ack_count,
 //@@at after "if operation_option.is_none() {"
         proof { assert(self.operations@ =~= old(self).operations@); }
 //@@at after "let operation = operation_option.unwrap();"
@@ -1202,6 +1204,19 @@ impl ProtocolState {
 // connection lifecycle inside the engine (C07, C11, C15, C14)
 // =====================================================================================================
 
+// fields no step of connection-closed bookkeeping touches once the timers have been cleared
+pub open spec fn closing_frame(pre: ProtocolState, post: ProtocolState) -> bool {
+    &&& post.next_operation_id == pre.next_operation_id && post.next_packet_id == pre.next_packet_id
+    &&& post.config == pre.config && post.current_settings == pre.current_settings && post.protocol_version == pre.protocol_version
+    &&& post.has_connected_successfully == pre.has_connected_successfully && post.current_time == pre.current_time
+    &&& post.qos2_incomplete_incoming_publishes@ == pre.qos2_incomplete_incoming_publishes@
+    &&& post.pending_write_completion == pre.pending_write_completion
+    &&& post.pending_write_completion_operations@ == pre.pending_write_completion_operations@
+    &&& post.connack_timeout_timepoint == pre.connack_timeout_timepoint && post.next_ping_timepoint == pre.next_ping_timepoint
+    &&& post.ping_timeout_timepoint == pre.ping_timeout_timepoint && post.operation_ack_timeouts == pre.operation_ack_timeouts
+    &&& (pre.state == ProtocolStateType::Disconnected ==> post.slow_start_ack_count == pre.slow_start_ack_count)
+}
+
 // C15: what each policy keeps, straight from the enum's documented meaning
 pub open spec fn policy_keeps(p: MqttPacket, policy: OfflineQueuePolicy) -> bool {
     match policy {
@@ -1330,7 +1345,9 @@ impl ProtocolState {
     requires old(self).wf(),
     ensures final(self).wf(), r is Ok ==> final(self).current_operation is None,
         // during connection-closed handling (state already Disconnected) this never fails, whatever the half-written packet was
-        old(self).state == ProtocolStateType::Disconnected ==> r is Ok,
+        old(self).state == ProtocolStateType::Disconnected ==> r is Ok && final(self).state == ProtocolStateType::Disconnected,
+        // frame: only the tracked tables, the three queues and the current-operation slot are touched
+        closing_frame(*old(self), *final(self)),
         ({
             let pre = *old(self);
             let post = *final(self);
@@ -1702,6 +1719,7 @@ impl ProtocolState {
         state_after_failures(old(self).state, final(self).state),
         old(self).state == ProtocolStateType::Disconnected ==> r is Ok,
         (old(self).cur_ok() && (old(self).current_operation matches Some(c) ==> !iterator.remaining().contains(c))) ==> final(self).cur_ok(),
+        !old(self).ss_active() ==> final(self).slow_start_ack_count == old(self).slow_start_ack_count,
 //@@loop 0 manual=it
             invariant it.obeys_prophetic_iter_laws(), it.decrease() is Some,
                 forall|u: ()| error_fn.requires(u),
@@ -1713,6 +1731,8 @@ impl ProtocolState {
                 forall|k: u64| #[trigger] self.operations@.contains_key(k) <==> old(self).operations@.contains_key(k) && !consumed.contains(k),
                 state_after_failures(old(self).state, self.state),
                 old(self).state == ProtocolStateType::Disconnected ==> res is Ok,
+                !old(self).ss_active() ==> self.slow_start_ack_count == old(self).slow_start_ack_count,
+                self.config == old(self).config,
                 (old(self).cur_ok() && (old(self).current_operation matches Some(c) ==> !all.contains(c))) ==> self.cur_ok(),
             ensures all == consumed,
             decreases it.decrease()->Some_0,
@@ -1758,6 +1778,7 @@ impl ProtocolState {
         state_after_failures(old(self).state, final(self).state),
         old(self).state == ProtocolStateType::Disconnected ==> r is Ok,
         (old(self).cur_ok() && (old(self).current_operation matches Some(c) ==> !retries_exceeded(*old(self), c))) ==> final(self).cur_ok(),
+        !old(self).ss_active() ==> final(self).slow_start_ack_count == old(self).slow_start_ack_count,
 //@@loop 0 iter=it
             invariant *self == *old(self), self.wf(),
                 it.seq().unref().to_set() == self.pending_non_publish_operations@.values(),
@@ -1810,6 +1831,57 @@ impl ProtocolState {
                 assert(it.seq().unref().to_set().contains(*verif_x));
                 assert(it.seq().unref().take(it.seq().len() as int) =~= it.seq().unref());
             }
+//@end
+}
+
+// C15: splitting a sequence of (operation id, packet) by the offline-queue policy, order preserved
+pub open spec fn part_by_policy(s: Seq<(u64, &MqttPacket)>, policy: OfflineQueuePolicy, keep: bool) -> Seq<u64>
+    decreases s.len()
+{
+    if s.len() == 0 { Seq::<u64>::empty() } else {
+        let r = part_by_policy(s.drop_last(), policy, keep);
+        if policy_keeps(*s.last().1, policy) == keep { r.push(s.last().0) } else { r }
+    }
+}
+
+//@fn gneiss-mqtt/src/protocol.rs partition_operations_by_queue_policy props=C15,C10 desugar
+    requires iterator.obeys_prophetic_iter_laws(), iterator.decrease() is Some,
+    ensures r.0@ == part_by_policy(iterator.remaining(), *policy, true),
+        r.1@ == part_by_policy(iterator.remaining(), *policy, false),
+//@@loop 0 manual=it
+            invariant it.obeys_prophetic_iter_laws(), it.decrease() is Some,
+                all == consumed + it.remaining(),
+                retained@ == part_by_policy(consumed, *policy, true),
+                filtered@ == part_by_policy(consumed, *policy, false),
+            ensures all == consumed,
+            decreases it.decrease()->Some_0,
+//@@at before "let mut it = (iterator).into_iter();"
+    let ghost all = iterator.remaining();
+    let ghost mut consumed: Seq<(u64, &MqttPacket)> = Seq::empty();
+//@@at before "if does_packet_pass_offline_queue_policy(packet, policy) {"
+        proof {
+            let pre = consumed;
+            consumed = consumed.push((id, packet));
+            assert(consumed.drop_last() =~= pre);
+            assert(consumed.last() == (id, packet));
+        }
+//@end
+
+// the same split for a queue of operation ids (ids no longer tracked are skipped)
+pub open spec fn qpart(s: ProtocolState, q: Seq<u64>, policy: OfflineQueuePolicy, keep: bool) -> Seq<u64>
+    decreases q.len()
+{
+    if q.len() == 0 { Seq::<u64>::empty() } else {
+        let r = qpart(s, q.drop_last(), policy, keep);
+        if s.operations@.contains_key(q.last()) && policy_keeps(*s.operations@[q.last()].packet, policy) == keep { r.push(q.last()) } else { r }
+    }
+}
+
+impl ProtocolState {
+// (body is `queue.iter().filter(|id| ..).map(|id| ..)` handed to the function above: closure-capturing adapter chain, outside
+// Verus) -> assumed contract, examined by E-B
+//@fn gneiss-mqtt/src/protocol.rs ProtocolState::partition_operation_queue_by_queue_policy props=C15 stub
+    ensures r.0@ == qpart(*self, queue@, *policy, true), r.1@ == qpart(*self, queue@, *policy, false),
 //@end
 }
 
@@ -1872,6 +1944,100 @@ impl ProtocolState {
 //@end
 }
 
+// ---- what a disconnection may do to an operation that survives it: the DUP flag, the slow-start weight and the interruption
+// count may change; its identity (id, packet id, application content, handler, PUBREL) may not  (C04, C06, C01)
+pub open spec fn same_packet_except_dup(a: MqttPacket, b: MqttPacket) -> bool {
+    match (a, b) {
+        (MqttPacket::Publish(x), MqttPacket::Publish(y)) => y == PublishPacket { duplicate: y.duplicate, ..x },
+        _ => a == b,
+    }
+}
+pub open spec fn op_evolved(a: ClientOperation, b: ClientOperation) -> bool {
+    b.id == a.id && b.packet_id == a.packet_id && b.options == a.options && b.qos2_pubrel == a.qos2_pubrel
+        && b.ping_extension_base_timepoint == a.ping_extension_base_timepoint && same_packet_except_dup(*a.packet, *b.packet)
+}
+pub open spec fn evolved(pre: ProtocolState, post: ProtocolState) -> bool {
+    &&& forall|k: u64| #[trigger] post.operations@.contains_key(k) ==> pre.operations@.contains_key(k) && op_evolved(pre.operations@[k], post.operations@[k])
+    &&& post.next_operation_id == pre.next_operation_id && post.next_packet_id == pre.next_packet_id
+    &&& post.config == pre.config && post.current_settings == pre.current_settings && post.protocol_version == pre.protocol_version
+    &&& post.has_connected_successfully == pre.has_connected_successfully && post.current_time == pre.current_time
+    &&& post.qos2_incomplete_incoming_publishes@ == pre.qos2_incomplete_incoming_publishes@
+    &&& post.pending_write_completion == pre.pending_write_completion
+    &&& post.slow_start_ack_count == pre.slow_start_ack_count
+}
+// the engine between connections
+pub open spec fn offline(s: ProtocolState) -> bool {
+    &&& s.state == ProtocolStateType::Disconnected
+    &&& s.connack_timeout_timepoint is None && s.next_ping_timepoint is None && s.ping_timeout_timepoint is None
+    &&& heap_view(s.operation_ack_timeouts) == Multiset::<Reverse<OperationTimeoutRecord>>::empty()
+    &&& s.current_operation is None
+}
+
+impl ProtocolState {
+//@fn gneiss-mqtt/src/protocol.rs ProtocolState::handle_network_event_connection_closed props=C01,C04,C06,C07,C11,C15,C18 desugar
+    requires old(self).wf(), interruptions_in_range(*old(self)),
+    ensures final(self).wf(),
+        old(self).state == ProtocolStateType::Disconnected ==> r is Err && *final(self) == *old(self),
+        old(self).state != ProtocolStateType::Disconnected ==> {
+            &&& r is Ok
+            &&& offline(*final(self))
+            &&& evolved(*old(self), *final(self))
+            // nothing stays "in flight" or "written, not flushed" on a dead connection, and no acknowledgement/ping survives in the queue
+            &&& final(self).pending_publish_operations@ == Map::<u16, u64>::empty() && final(self).pending_non_publish_operations@ == Map::<u16, u64>::empty()
+            &&& final(self).pending_write_completion_operations@.len() == 0
+            &&& final(self).high_priority_operation_queue@.len() == 0
+        },
+//@@loop 0 manual=it
+            invariant it.obeys_prophetic_iter_laws(), it.decrease() is Some,
+                self.wf(), offline(*self), evolved(*old(self), *self), result is Ok,
+                self.pending_publish_operations@ == Map::<u16, u64>::empty(), self.pending_write_completion_operations@.len() == 0,
+                self.high_priority_operation_queue@.len() == 0,
+                forall|i: int| 0 <= i < it.remaining().len() ==> (self.operations@.contains_key((#[trigger] it.remaining()[i]).1) ==> *self.operations@[it.remaining()[i].1].packet is Publish),
+            decreases it.decrease()->Some_0,
+//@@loop 1 manual=it
+            invariant it.obeys_prophetic_iter_laws(), it.decrease() is Some,
+                self.wf(), offline(*self), evolved(*old(self), *self), result is Ok,
+                self.pending_publish_operations@ == Map::<u16, u64>::empty(), self.pending_non_publish_operations@ == Map::<u16, u64>::empty(), self.pending_write_completion_operations@.len() == 0,
+                self.high_priority_operation_queue@.len() == 0,
+            decreases it.decrease()->Some_0,
+//@@at after "self.operation_ack_timeouts.clear();"
+        proof { assert(self.ss_set() =~= old(self).ss_set()); assert(self.wf()); }
+        let ghost s0 = *self;
+//@@at after "self.apply_connection_closed_to_current_operation()?;"
+        let ghost s1 = *self;
+        proof { assert(evolved(*old(self), s1)); }
+//@@at after "self.apply_slow_start_initialization();"
+        let ghost s2 = *self;
+        proof { assert(self.wf()); assert(evolved(*old(self), s2)); }
+//@@at after "self.update_interrupted_retries();"
+        let ghost s3 = *self;
+        proof { assert(self.wf()); assert(evolved(*old(self), s3)); }
+//@@at after "generate_connection_closed_error));"
+        let ghost s4 = *self;
+        proof { assert(evolved(*old(self), s4)); }
+//@@at after "generate_offline_queue_policy_failed_error)); @nth=1/2"
+        let ghost s5 = *self;
+        proof { assert(evolved(*old(self), s5)); }
+//@@at after "result = fold_mqtt_result(result, self.fail_operations_exceeding_max_interruption_limit());"
+        let ghost s6 = *self;
+        proof { assert(evolved(*old(self), s6)); }
+//@@at after "mem::swap(&mut unacked_publish_table, &mut self.pending_publish_operations);"
+        proof { assert(self.ss_set() =~= s6.ss_set()); assert(self.wf()); }
+//@@at after "mem::swap(&mut unacked_sub_unsub_table, &mut self.pending_non_publish_operations);"
+        proof { assert(self.wf()); }
+//@@at after "generate_offline_queue_policy_failed_error)); @nth=2/2"
+        proof {
+            assert(evolved(*old(self), *self));
+            assert(offline(*self));
+            assert(result is Ok);
+            assert(self.pending_publish_operations@ =~= Map::<u16, u64>::empty());
+            assert(self.pending_non_publish_operations@ =~= Map::<u16, u64>::empty());
+            assert(self.pending_write_completion_operations@.len() == 0);
+            assert(self.high_priority_operation_queue@.len() == 0);
+        }
+//@end
+}
+
 // =====================================================================================================
 // entry points (C11, C07, C15, C01)
 // =====================================================================================================
@@ -1894,12 +2060,6 @@ impl ProtocolState {
         final(self).state == old(self).state || (old(self).state == ProtocolStateType::PendingDisconnect && final(self).state == ProtocolStateType::Halted),
 //@end
 
-//@fn gneiss-mqtt/src/protocol.rs ProtocolState::handle_network_event_connection_closed stub
-    requires old(self).wf(),
-    ensures final(self).wf(),
-        old(self).state == ProtocolStateType::Disconnected ==> r is Err && *final(self) == *old(self),
-        old(self).state != ProtocolStateType::Disconnected && r is Ok ==> final(self).state == ProtocolStateType::Disconnected && final(self).current_operation is None,
-//@end
 
 //@fn gneiss-mqtt/src/protocol.rs ProtocolState::handle_network_event_incoming_data stub
     requires old(self).wf(),
@@ -1981,7 +2141,7 @@ impl ProtocolState {
 //@end
 
 //@fn gneiss-mqtt/src/protocol.rs ProtocolState::handle_network_event props=C11,C07
-    requires old(self).wf(), opid_budget(*old(self), 1), clock_ok(old(context).current_time),
+    requires old(self).wf(), opid_budget(*old(self), 1), clock_ok(old(context).current_time), interruptions_in_range(*old(self)),
     ensures final(self).wf(),
         // every error from an entry point switches to Halted ...
         r is Err ==> final(self).state == ProtocolStateType::Halted,
